@@ -107,6 +107,14 @@ def LangCand (rules : List CoreRule) (ctxAt : Nat → Regex) (iter : List Nat) (
       k = iter.length ∧ firstLang ctxAt [] (matchingAccs rules (iter.map Sym.ch ++ [Sym.eoi])) = some a
     else firstLang ctxAt (iter.drop k) (matchingAccs rules ((iter.take k).map Sym.ch)) = some a
 
+/-- no transition of any kind leads to NFA state 0 -/
+def NoIncoming0 (n : NFA) : Prop := ∀ s, s < n.length →
+  0 ∉ (n.st s).eps ∧ 0 ∉ (n.st s).any ∧ 0 ∉ (n.st s).eoi ∧
+  (∀ e ∈ (n.st s).chars, 0 ∉ e.2) ∧ (∀ r ∈ (n.st s).ranges, 0 ∉ r.2.2)
+
+/-- end-of-input transitions of the NFA lead to states without any outgoing transition -/
+def EoiInert (n : NFA) : Prop := ∀ s t, s < n.length → t ∈ (n.st s).eoi → NFA.virgin n t
+
 /-- facts about the DFA `nfaToDfa` builds for one rule set that the run-time theorems rely on
 (beyond the language it accepts) -/
 structure BlockOK (d : DFA Nat) : Prop where
